@@ -204,7 +204,8 @@ impl Gatekeeper {
     ) -> Result<u32, NotEnoughSlots> {
         // For updates, the difference between the existing appointment size and the update is computed.
         let mut registered_users = self.registered_users.lock().unwrap();
-        let user_info = registered_users.get_mut(&user_id).unwrap();
+        // The user may have been deleted since it was authenticated (if a new block outdated its subscription).
+        let user_info = registered_users.get_mut(&user_id).ok_or(NotEnoughSlots)?;
         // An appointment that is not stored yet is not using any slot.
         let used_slots = self
             .dbm
